@@ -27,7 +27,7 @@ Inductive c08_var :=
   | V_EFD      (* edge_face_distances *)
   | V_ENZ      (* edge_node_z *)
   | V_BOUNDS   (* bounds *)
-  | V_TOPO.    (* grid_topology, written into Grid._ds by to_xarray("ugrid") *)
+  | V_TOPO.    (* grid_topology (present only when the source dataset ships it) *)
 
 Definition c08_var_eqb (a b : c08_var) : bool :=
   match a, b with
@@ -88,14 +88,14 @@ Definition c08_fuel : nat := 6.   (* longest dependency chain: FF -> EF -> FE ->
 Inductive c08_op :=
   | OpGet (v : c08_var)                 (* any lazily computed attribute *)
   | OpAreas                             (* compute_face_areas(...): reads n_nodes_per_face, stores nothing in _ds *)
-  | OpEncodeUgrid                       (* to_xarray("ugrid"): writes grid_topology into _ds *)
+  | OpEncodeUgrid                       (* to_xarray("ugrid"): encodes a deep copy of _ds *)
   | OpPure.                             (* queries, other exports, isel/subset/get_dual: new objects only *)
 
 Definition c08_step (s : c08_state) (o : c08_op) : c08_state :=
   match o with
   | OpGet v => c08_derive c08_fuel s v
   | OpAreas => c08_derive c08_fuel s V_NPF
-  | OpEncodeUgrid => if c08_present s V_TOPO then s else (V_TOPO, Canon) :: s
+  | OpEncodeUgrid => s        (* works on a deep copy of _ds: the grid's own dataset is untouched *)
   | OpPure => s
   end.
 
